@@ -79,7 +79,7 @@ def run(ctx):
     ctx.harness("./cmd/c16", overlay=OVERLAY)
     _mask_inconclusive(ctx)
     period = "200" if ctx.tier == "quick" else "120"
-    ctx.diff(area="burst", driver="drv_c16", n={"quick": 60000, "thorough": 1200000}, stateful=True,
+    ctx.diff(area="burst", driver="drv_c16", n={"quick": 40000, "thorough": 3000000}, stateful=True,
              trivial=lambda l, o: o == "inconclusive",
              extra_env={"C16_PERIOD_MS": period, "C16_PAR": "64"}, timeout=600,
              theorem="C16.granted_le_cap / lastUsed_spec / answer_exactly_once / immediate_errors / "
@@ -87,7 +87,7 @@ def run(ctx):
                      "RL.exec; the implementation answers differently from RL.exec on this history",
              what="lock-step history: `tick` = exactly one tick of the ticker goroutine; rK = K-th Use call")
     _stress_corpus(ctx)
-    ctx.impl_oracle("stress", n={"quick": 96, "thorough": 1200}, timeout=1500,
+    ctx.impl_oracle("stress", n={"quick": 96, "thorough": 2400}, timeout=1500,
                     label="Close on root/child concurrently with microsecond ticks and Use calls; every attempt under "
                           "a 5 s deadline in a child process (C16.close_returns / answer_exactly_once / "
                           "close_marks_subtree_and_fails_pending)",
